@@ -194,6 +194,18 @@ def corner_cases(tag):
         for j, v in enumerate(variants):
             o = dict(base); o.update(v)
             cases.append({"id": "%scorner%d_%d" % (tag, i, j), "o": o, "calls": seq, "legal": True})
+    # payloads far larger than the chunk size and than any internal buffer's initial capacity, with ordinary traffic
+    # before and after them (the random stream stays below 1.5 KiB per payload)
+    def big(n, k):
+        return bytes((i * k + 3) % 251 for i in range(n))
+    bigseq = lambda n: [H, S, C, ("M", 0, 0, 10, 10, b"before"), ("M", 0, 1, 11, 11, big(n, 7)), ("M", 0, 2, 12, 12, b"after"), C2,
+                        ("M", 5, 3, 13, 13, b"other channel"), ("D", b"md", [(b"k", b"v")]), ("M", 0, 4, 9, 9, big(n // 3, 11)),
+                        ("M", 5, 5, 14, 14, b"z"), X]
+    for j, (n, v) in enumerate([(300 * 1024, {"chunksize": 1024}), (70 * 1024, {"chunksize": 64}), (70 * 1024, {"chunksize": 1024, "comp": "zstd"}),
+                                (70 * 1024, {"chunksize": 1024, "comp": "lz4"}), (70 * 1024, {"chunked": False}),
+                                (130 * 1024, {"chunksize": 4096, "crc": False, "skipmi": True})]):
+        o = dict(base); o.update(v)
+        cases.append({"id": "%scornerbig_%d" % (tag, j), "o": o, "calls": bigseq(n), "legal": True})
     return cases
 
 
